@@ -66,11 +66,13 @@ pub struct ConnCase {
     pub drop_mode: u8,
     /// C12: hand descriptor number 0 to the library in this run (exclusive use of the descriptor table)
     pub use_fd0: bool,
+    /// C12: stub-free run over a real socketpair with SCM_RIGHTS (vmm-sys-util's recvmsg path)
+    pub real_socket: bool,
 }
 
 impl ConnCase {
     pub fn new(limit: Option<usize>, stream: Vec<u8>, scheds: Vec<Vec<SOp>>) -> Self {
-        ConnCase { limit, stream, scheds, eof: true, oneshot_max: None, fd_plan: vec![], eof_fds: 0, drop_mode: 0, use_fd0: false }
+        ConnCase { limit, stream, scheds, eof: true, oneshot_max: None, fd_plan: vec![], eof_fds: 0, drop_mode: 0, use_fd0: false, real_socket: false }
     }
     pub fn eff_limit(&self) -> usize {
         self.limit.unwrap_or(51200)
@@ -94,6 +96,7 @@ impl ConnCase {
             ("eof_fds", json::u(self.eof_fds as usize)),
             ("drop_mode", json::u(self.drop_mode as usize)),
             ("use_fd0", J::Bool(self.use_fd0)),
+            ("real_socket", J::Bool(self.real_socket)),
         ])
     }
     pub fn from_json(j: &J) -> Result<Self, String> {
@@ -115,6 +118,7 @@ impl ConnCase {
             eof_fds: j.get("eof_fds").and_then(|x| x.usize()).unwrap_or(0) as u16,
             drop_mode: j.get("drop_mode").and_then(|x| x.usize()).unwrap_or(0) as u8,
             use_fd0: j.get("use_fd0").and_then(|x| x.bool()).unwrap_or(false),
+            real_socket: j.get("real_socket").and_then(|x| x.bool()).unwrap_or(false),
         })
     }
 
@@ -202,6 +206,11 @@ impl ConnCase {
         if self.use_fd0 {
             let mut c = self.clone();
             c.use_fd0 = false;
+            out.push(c);
+        }
+        if self.real_socket {
+            let mut c = self.clone();
+            c.real_socket = false;
             out.push(c);
         }
         out
